@@ -150,7 +150,12 @@ def main(argv=None):
     tasks = prop.tasks(args.tier)
     from props import _premise
 
+    own_names = {t["name"] for t in tasks}
     tasks = tasks + _premise.premise_tasks(unbounded_only=getattr(prop, "LEVEL", "") == "proof")  # the dispatch core: a premise of every property (props/_premise.py)
+    # a premise task that is not one of the property's own tasks can only ADD a violation: when the code under it was rewritten so
+    # that its contract no longer applies (anchor lost), the property's own verdict stands and the evidence says so
+    premise_only = {t["name"] for t in tasks} - own_names
+    premise_undecided = []
     tasks = list({t["name"]: t for t in reversed(tasks)}.values())[::-1]  # a task shared by two task lists runs once
     if not any(t["name"] == "frames.state" for t in tasks):
         # premise of every property: the contracts quantify over the declared state of the library (contracts/state_c.py);
@@ -163,6 +168,7 @@ def main(argv=None):
     meta_by_task = {t["name"]: t for t in tasks}
 
     ob_status = {}  # obligation name -> worst status
+    own_obligations = set()  # obligations generated by the property's own tasks (not only by the shared premise)
     ob_detail = {}
     rank = {"proved": 0, "unknown": 1, "refuted": 2}
     n_inst = n_proved = 0
@@ -183,7 +189,10 @@ def main(argv=None):
         if r["status"] == "error":
             V.errors.append(f"task {r['name']}: {r['detail']}")
         elif r["status"] == "undecided":
-            V.undecided.append(f"task {r['name']}: {r['detail'].splitlines()[0] if r['detail'] else ''}")
+            if r["name"] in premise_only:
+                premise_undecided.append(f"task {r['name']}: {r['detail'].splitlines()[0] if r['detail'] else ''}")
+            else:
+                V.undecided.append(f"task {r['name']}: {r['detail'].splitlines()[0] if r['detail'] else ''}")
         for o in r["obligations"]:
             is_b = r["mode"] != "U"
             if is_b:
@@ -196,20 +205,27 @@ def main(argv=None):
             if nm not in ob_status or rank[o["status"]] > rank[ob_status[nm]]:
                 ob_status[nm] = o["status"]
                 ob_detail[nm] = dict(o, task=r["name"])
+            if r["name"] not in premise_only:
+                own_obligations.add(nm)
 
     # 2. baseline: every obligation proved on the pinned tree must still be generated --------------------
     base_path = ROOT / "baseline" / f"{pid}.json"
     if args.rebaseline:
         base_path.parent.mkdir(exist_ok=True)
-        base_path.write_text(json.dumps({"obligations": {k: v for k, v in sorted(ob_status.items())}}, indent=0))
+        base_path.write_text(json.dumps({"obligations": {k: v for k, v in sorted(ob_status.items())}, "premise_only": sorted(set(ob_status) - own_obligations)}, indent=0))
         print(f"baseline written: {len(ob_status)} obligation names")
-    baseline = json.loads(base_path.read_text())["obligations"] if base_path.exists() else {}
+    base_doc = json.loads(base_path.read_text()) if base_path.exists() else {}
+    baseline = base_doc.get("obligations", {})
+    base_premise_only = set(base_doc.get("premise_only", []))
     undecided_tasks = {r["name"] for r in results if r["status"] != "ok"}
     for nm, st in baseline.items():
         if st == "proved" and nm not in ob_status:
             tname = nm.rsplit("/", 1)[0]
             if not any(nm.startswith(u + "/") for u in undecided_tasks):
-                V.undecided.append(f"obligation {nm} (proved on the pinned tree) was not generated in this run")
+                if nm in base_premise_only:
+                    premise_undecided.append(f"obligation {nm} of the shared premise was not generated in this run")
+                else:
+                    V.undecided.append(f"obligation {nm} (proved on the pinned tree) was not generated in this run")
 
     # 3. verdict per failing obligation -----------------------------------------------------------------
     native_items = []
@@ -346,6 +362,7 @@ def main(argv=None):
         conformance_steps=conf["steps"],
         samples=samples,
         undecided=V.undecided[:20],
+        premise_undecided=premise_undecided[:20],
         explanation=getattr(prop, "EXPLANATION", ""),
         bounds=getattr(prop, "BOUNDS", {}),
     )
